@@ -3,6 +3,10 @@
 package main
 
 import (
+	"os"
+	"path/filepath"
+
+	"github.com/markusressel/fan2go/internal/persistence"
 	"fmt"
 
 	"github.com/markusressel/fan2go/internal/configuration"
@@ -76,6 +80,40 @@ func init() {
 				r = "err"
 			}
 			return r + " " + fanState(curFan)
+		case "fan.restart":
+			// what a restart of fan2go does with the measured curve: the fan's curve data are saved (real persistence, a
+			// fresh bbolt file), a NEW fan object of the same configuration is created, the curve is loaded and attached.
+			// The limits of the new object must be those the measured curve yields.
+			h, isHw := curFan.(*fans.HwMonFan)
+			if !isHw || h.FanCurveData == nil {
+				return "skip " + fanState(curFan)
+			}
+			dir, err := os.MkdirTemp("", "verif-fanrestart-")
+			if err != nil {
+				panic(err)
+			}
+			defer os.RemoveAll(dir)
+			p := persistence.NewPersistence(filepath.Join(dir, "fan2go.db"))
+			if err := p.Init(); err != nil {
+				return "err:init"
+			}
+			if err := p.SaveFanPwmData(curFan); err != nil {
+				return "err:save " + fanState(curFan)
+			}
+			cfg := h.Config
+			nf, err := fans.NewFan(cfg)
+			if err != nil {
+				return "err:newfan"
+			}
+			data, err := p.LoadFanPwmData(nf)
+			if err != nil {
+				return "err:load " + fanState(curFan)
+			}
+			if err := nf.AttachFanRpmCurveData(&data); err != nil {
+				return "err:attach " + fanState(nf)
+			}
+			curFan = nf
+			return "ok " + fanState(curFan)
 		case "fan.set":
 			v, force := a.int("v", 0), a.bool("force", false)
 			switch a.str("which", "min") {
